@@ -52,11 +52,13 @@ type Exec struct {
 	funcVals  map[string]*ssa.Function
 	ghostFields map[string]*GhostField
 	fnInfos   map[string]*fnInfo
+	baseCtr int // value of the fresh-symbol counter after the package initialisers ran
 	nextFocus string // tag given to the next checks (loop invariant being re-established)
 	nextAltGoal2 T
 	nextAltGoal T // the same goal with only the ground earlier invariants as antecedent (focus level)
 	immutableFields map[string]bool // "pkgpath.T.f"
 	objInvs map[string]*ObjInv // "pkgpath.T"
+	onAllocs map[string]*OnAlloc // "pkgpath.T"
 	immutableHeaps  map[string]bool // heap names excluded from wholesale havoc
 	immutableViolations map[string]string
 	protected map[string]Protected // "pkgpath.T.f"
@@ -356,8 +358,12 @@ func (x *Exec) step(st *State, fr *Frame, ins ssa.Instruction) {
 		r := x.binop(st, fr, v.Op, v.X, v.Y, v.Type(), v.Pos())
 		if r.Sort == SInt && strings.HasPrefix(r.S, "(") {
 			// name arithmetic results: index terms then have the shape (+ off c) that quantifier triggers match
+			// (the value is wrapped in the identity function "idx": solvers substitute the defining
+			// equation, and without the wrapper the sum would be flattened into the index term again)
 			c := fresh(v.Name(), SInt)
-			st.define(c, r)
+			idx := declFun("idx", []string{SInt}, SInt)
+			addAxiom("idx identity", []string{idx}, fmt.Sprintf("(forall ((x Int)) (! (= (%s x) x) :pattern ((%s x))))", idx, idx))
+			st.define(c, app(SInt, idx, r))
 			r = c
 		} else {
 			r = st.name(v.Name(), r)
@@ -411,6 +417,7 @@ func (x *Exec) step(st *State, fr *Frame, ins ssa.Instruction) {
 		st.setHeap(mapDomName(mt), store(st.mapDom(mt), r, T{fmt.Sprintf("((as const %s) false)", ds), ds}))
 		st.vals[v] = Val{T: r, typ: mt}
 	case *ssa.MakeInterface:
+		x.allocHook(st, v.X)
 		xv := x.val(st, v.X)
 		t, facts := boxIface(x.materialize(st, xv), v.X.Type())
 		for _, f := range facts {
@@ -582,7 +589,12 @@ func (x *Exec) doIndexAddr(st *State, fr *Frame, v *ssa.IndexAddr) {
 	case *types.Slice:
 		s := x.term(st, v.X)
 		x.require(st, fr, "nopanic/index", and(app(SBool, "<=", mkInt(0), idx), app(SBool, "<", idx, sliceLen(s))), v.Pos(), "index out of range")
-		st.vals[v] = Val{addr: &Addr{kind: aElem, root: sliceArr(s), idx: addT(sliceOff(s), idx), rootT: u.Elem(), typ: u.Elem()}, typ: v.Type()}
+		ixv := ixT(sliceOff(s), idx)
+		if strings.HasPrefix(ixv.S, "(ix ") || strings.HasPrefix(ixv.S, "(|ix| ") {
+			// ground instance of the definition of ix, so arithmetic knows the index without quantifier instantiation
+			st.assume(eq(ixv, app(SInt, "+", sliceOff(s), idx)))
+		}
+		st.vals[v] = Val{addr: &Addr{kind: aElem, root: sliceArr(s), idx: ixv, rootT: u.Elem(), typ: u.Elem()}, typ: v.Type()}
 	case *types.Pointer:
 		arr := u.Elem().Underlying().(*types.Array)
 		x.require(st, fr, "nopanic/index", and(app(SBool, "<=", mkInt(0), idx), app(SBool, "<", idx, mkInt(arr.Len()))), v.Pos(), "array index out of range")
@@ -646,6 +658,7 @@ func (x *Exec) doMapUpdate(st *State, fr *Frame, v *ssa.MapUpdate) {
 	if pv := x.val(st, v.Map); pv.prot != nil {
 		x.lockCheck(st, fr, pv.prot, true, v.Pos(), "update of the map in "+pv.prot.field)
 	}
+	x.allocHook(st, v.Value)
 	m := x.term(st, v.Map)
 	k := x.term(st, v.Key)
 	val := x.term(st, v.Value)
@@ -1085,4 +1098,28 @@ func (x *Exec) lockCheck(st *State, fr *Frame, p *protInfo, write bool, pos toke
 	}
 	x.addCheck(st, fr, "lock/held-at-access", goal, pos, what+" without holding the guarding mutex (exclusively where required)")
 	st.assume(goal)
+}
+
+// allocHook assumes the `onalloc` fact of a struct object allocated in the function being executed
+// at the moment the object is handed on (see OnAlloc).
+func (x *Exec) allocHook(st *State, v ssa.Value) {
+	if len(x.onAllocs) == 0 {
+		return
+	}
+	a, ok := v.(*ssa.Alloc)
+	if !ok {
+		return
+	}
+	n, ok := deref(a.Type()).(*types.Named)
+	if !ok || n.Obj().Pkg() == nil {
+		return
+	}
+	oa := x.onAllocs[n.Obj().Pkg().Path()+"."+n.Obj().Name()]
+	if oa == nil {
+		return
+	}
+	ref := x.term(st, v)
+	ctx := &EvalCtx{x: x, st: st, old: st, env: map[string]SV{oa.Var: {t: ref, typ: a.Type()}}, pkg: x.typesPkg(oa.Pkg), sf: oa.SF}
+	st.assume(ctx.boolOf(oa.E))
+	x.note("ASSUMED when a %s is handed on by the function that built it: %s", oa.Type, oa.Text)
 }
